@@ -31,7 +31,7 @@ ASSUMPTIONS = ["sources' own aclose never suspends or fails", "sync iterables ha
                "not be closed then, except for handles that advertise eager closing (chain, tee, groupby)"]
 EXHAUSTIVE = {"quick": False, "thorough": False}
 N_SPECS = {"quick": 12000, "thorough": 600000}
-SRC_FL = ["async_gen", "async_class", "async_class", "async_class_bare", "list", "async_class_proxy", "async_class_future", "async_iterable"]
+SRC_FL = ["async_gen", "async_class", "async_class", "async_class_bare", "list", "async_class_proxy", "async_class_future", "async_iterable", "async_class_lateclose"]
 EAGER = {"chain"}  # handles closing what they own even if never advanced (tee/groupby handled separately)
 
 
@@ -71,7 +71,8 @@ def cases(tier, seed, shard, nshards):
                 ops.append(["next", rng.randrange(nchild)] if r < 0.6 else ["close", rng.randrange(nchild)] if r < 0.9
                            else ["close_handle"])
             yield {"kind": "tee", "n": nchild, "len": rng.randint(0, maxlen), "ops": ops,
-                   "flav": rng.choice(["async_gen", "async_class", "async_class_proxy"]), "final": rng.choice(["close_all", "close_handle", "none"])}
+                   "flav": rng.choice(["async_gen", "async_class", "async_class_proxy", "async_class_lateclose"]),
+                   "final": rng.choice(["close_all", "close_all_reversed", "close_handle", "none"])}
         elif name == "groupby":
             ks = gen.keys_seq(rng, maxlen + 2, 2)
             ops = [rng.choice(["adv", "grp", "grp", "oldgrp"]) for _ in range(rng.randint(0, 6))]
@@ -273,6 +274,8 @@ def run_tee(case, stats):
         ops = list(case["ops"])
         if case["final"] == "close_all":
             ops += [["close", c] for c in range(n)]
+        elif case["final"] == "close_all_reversed":
+            ops += [["close", c] for c in reversed(range(n))]
         elif case["final"] == "close_handle":
             ops += [["close_handle"]]
         for op in ops:
